@@ -40,6 +40,8 @@ package webhook
 //@   at call PodUseENI: ghost c18useeni = result
 //@   at call IsFixedNamePod: ghost c18fixedname = result
 //@   loop 2 invariant forall k int :: 0 <= k && k <= rangeindex ==> netOK(networks.PodNetworks[k])
+//@   # fixed-IP entries are only let through for pods with a stable name
+//@   loop 2 invariant forall k int :: 0 <= k && k <= rangeindex && networks.PodNetworks[k].AllocationType.Type == "Fixed" ==> c18fixedname
 //@   loop 2 invariant forall k int :: 0 <= k && k <= rangeindex ==> networks.PodNetworks[k].Interface in iF
 //@   loop 2 invariant forall a int, b int :: 0 <= a && a < b && b <= rangeindex ==> networks.PodNetworks[a].Interface != networks.PodNetworks[b].Interface
 //@   loop 2 invariant forall s string :: s in iF ==> exists k int :: 0 <= k && k <= rangeindex && networks.PodNetworks[k].Interface == s
